@@ -94,6 +94,11 @@ def run(op):
         # parse a source definition, then emit it in another shape
         ir = parse_source(op["parser"], op["source"], dict(op.get("parse_opts") or {}))
         return emit(op["emitter"], ir, opts)
+    if kind == "openapi_emit":
+        # cdd.compound.openapi.emit.openapi on a list of (name, json-schema, route, id, crud)
+        import cdd.compound.openapi.emit
+        from cdd.compound.openapi.utils.emit_openapi_utils import NameModelRouteIdCrud
+        return cdd.compound.openapi.emit.openapi([NameModelRouteIdCrud(*x) for x in op["entries"]])
     if kind == "docstring_roundtrip":
         import cdd.docstring.emit
         import cdd.docstring.parse
